@@ -21,6 +21,8 @@ import GqlVerif.Proofs.C01NestedW
 import GqlVerif.Proofs.C01NestedL
 import GqlVerif.Proofs.C01NestedAbsW
 import GqlVerif.Proofs.C01NestedAbsJ
+import GqlVerif.Proofs.C01AliasFragW
+import GqlVerif.Proofs.C01AliasFragJ
 open GqlVerif.C01
 #print axioms accepts_mono
 #print axioms conforming_int_accepted
@@ -321,3 +323,28 @@ open GqlVerif.C01
 #print axioms GqlVerif.C01NA.nc_roundtrip
 #print axioms GqlVerif.C01NA.nestedabs_tag_needed
 #print axioms GqlVerif.C01NA.nestedabs_variant_keys_needed
+-- AliasFragOp: fragments whose whole body is one spread (type aliases), themselves spread (Proofs/C01AliasFrag*.lean, P48)
+#print axioms GqlVerif.C01AF.deFlat_chain
+#print axioms GqlVerif.C01AF.dePath_chain
+#print axioms GqlVerif.C01AF.serPath_chain
+#print axioms GqlVerif.C01AF.memSpec_struct
+#print axioms GqlVerif.C01AF.memSpec_chain
+#print axioms GqlVerif.C01AF.okB_deStructMapA
+#print axioms GqlVerif.C01AF.deStructA_finds
+#print axioms GqlVerif.C01AF.aliasfrag_items_shape
+#print axioms GqlVerif.C01AF.aliasfrag_fragment_shape
+#print axioms GqlVerif.C01AF.aliasFragOp_of_nestedOp
+#print axioms GqlVerif.C01AF.aliasfrag_accepts
+#print axioms GqlVerif.C01AF.aliasfrag_lossless
+#print axioms GqlVerif.C01AF.aliasfrag_roundtrip
+#print axioms GqlVerif.C01AF.aliasKeysOk_eq_N
+#print axioms GqlVerif.C01AF.aliasRustOk_eq_N
+#print axioms GqlVerif.C01AF.aliasfrag_roundtrip_on_N
+#print axioms GqlVerif.C01AF.alias_cycle_not_in_class
+#print axioms GqlVerif.C01AF.af_class
+#print axioms GqlVerif.C01AF.af_not_N
+#print axioms GqlVerif.C01AF.af_items_shape
+#print axioms GqlVerif.C01AF.af_accepts
+#print axioms GqlVerif.C01AF.af_roundtrip
+#print axioms GqlVerif.C01AF.aliasfrag_keys_needed
+#print axioms GqlVerif.C01AF.aliasfrag_rust_needed
